@@ -1,15 +1,70 @@
-"""C13  A miter is true exactly where the two circuits differ
+"""C13  A miter is true exactly where the two circuits differ.
 
-P: (deductive obligations for this property are added in vlib/props/C13.py as they are built)
-B: vlib/bounded/C13.py (bounded stand-in; never counted as proved)."""
+P: add_pairwise_xor (the comparison stage of the miter) on an arbitrary host circuit: pointwise XOR, fresh
+   gates, WF, for n <= 3 pairs and arbitrary operand aliasing; build_miter rejects exactly the mismatched
+   shapes with MiterDifferentShapesError before touching anything (prefix of the function up to the first
+   composition call). The composition steps (add_circuit / connect_circuit) and the final OR are bounded-only.
+B: vlib/bounded/C13.py (whole miters of enumerated pairs vs. the pointwise definition)."""
+import z3
+
 from .. import env
-from .common import STD_TRUSTED, STD_ASSUME, run_bounded
+from ..pyvc.values import Sym, LabelSort, Obj
+from ..pyvc.prove import Prover, Contract
+from ..pyvc.models import PathEnd
+from ..pyvc import circuit_model as CM
+from .arith_common import HostGadget
+from .C09 import spec_pxor
+from .common import new_interp, finish_refuted, canary, STD_TRUSTED, STD_ASSUME, run_bounded
 
-LEVEL = 'exploration'
+LEVEL = 'other'
+GEN = 'cirbo/synthesis/generation/generation.py'
+CIRC = 'cirbo/core/circuit/circuit.py'
+
+
+class MiterShapes(Contract):
+    relpath, qualname, name = 'cirbo/sat/miter.py', 'build_miter', 'build_miter/shape-check'
+
+    def setup(self, it, ctx):
+        l, hl = CM.make_circuit(it, ctx, tag='left')
+        r, hr = CM.make_circuit(it, ctx, tag='right')
+        st = {'hl': hl, 'hr': hr, 'L0': hl.S, 'R0': hr.S}
+
+        def add_circuit(it_, fv, args, kwargs):
+            # the verified prefix ends here: composition itself is bounded-only
+            it_.ctx.check('composition-reached-only-with-equal-shapes', z3.And(hl.S.in_n == hr.S.in_n, hl.S.out_n == hr.S.out_n))
+            from .C02 import state_eq, ALL
+            it_.ctx.check('operands-untouched-so-far', z3.And(state_eq(it_.ctx, hl.S, st['L0'], ALL), state_eq(it_.ctx, hr.S, st['R0'], ALL)))
+            raise PathEnd()
+        it.contracts[CIRC + '::Circuit.add_circuit'] = add_circuit
+        return [l, r], {}, st
+
+    def on_raise(self, it, ctx, exc, st):
+        n = exc.cls.name if isinstance(exc, Obj) else repr(exc)
+        if n == 'MiterDifferentShapesError':
+            yield ('raise/only-for-different-shapes', z3.Or(st['hl'].S.in_n != st['hr'].S.in_n, st['hl'].S.out_n != st['hr'].S.out_n), {'raised': n})
+        else:
+            yield ('no-other-raise', z3.BoolVal(False), {'raised': n, 'witness': 'raises-' + n})
+
+    def post(self, it, ctx, result, st):
+        yield ('unreachable-in-prefix', z3.BoolVal(False))
 
 
 def run(rep):
     quick = env.TIER != 'thorough'
-    rep.trusted_base = list(STD_TRUSTED)
+    rep.trusted_base = list(STD_TRUSTED) + ['abstract circuit model vlib/pyvc/circuit_model.py']
+    for a in STD_ASSUME:
+        rep.assume(a)
+    rep.assume('composition by add_circuit/connect_circuit (C10) and the final OR/IFF gate of build_miter are covered by the bounded stand-in only')
+    it = new_interp()
+    pv = Prover(rep, it, 'C13')
+    for n in (1, 2, 3):
+        it.contracts.clear()
+        pv.run_contract(HostGadget(GEN, 'add_pairwise_xor', 2 * n, spec_pxor(n), label=f'add_pairwise_xor/n{n}', shape=(n, n)))
+    it.contracts.clear()
+    pv.run_contract(MiterShapes())
+    a, b = z3.Bools('a b')
+    canary(rep, pv, 'C13/canary/xor-is-or', [], z3.Xor(a, b) == z3.Or(a, b))
+    refuted = pv.discharge(env.NPROC)
+    finish_refuted(rep, pv, refuted)
     run_bounded(rep, 'C13', quick)
-    rep.extra['explanation'] = 'bounded stand-in only in this build'
+    rep.extra['explanation'] = 'pairwise-xor stage and shape rejection proved from the real source; the composed miter is checked by the bounded stand-in.'
